@@ -56,7 +56,22 @@ def monitor(case):
     fw = [e['got'] for e in ev if e['e'] == 'rb' and e.get('got')]
     if not is_subseq([key(m) for m in fw], [key(m) for m in delivered]):
         return 'a forwarded request is not a faithful in-order copy of a delivered one'
+    # control protocol (theorem rob_control_acknowledged_exactly_once): the k-th acknowledgement answers the
+    # k-th accepted control message, there are never more acknowledgements than accepted messages, and after
+    # a quiet drain tail none is missing
     ctl = [e for e in ev if e['e'] == 'dc' and e.get('acc')]
+    n_acc = n_ack = 0
+    for e in ev:
+        if e['e'] == 'dc' and e.get('acc'):
+            n_acc += 1
+        if e['e'] == 'rc' and e.get('got'):
+            if n_ack >= n_acc:
+                return 'control acknowledgement %d although only %d control messages were accepted' % (n_ack + 1, n_acc)
+            if e['got']['dst'] != ctl[n_ack]['msg']['src']:
+                return 'control acknowledgement %d routed to %s instead of %s' % (n_ack + 1, e['got']['dst'], ctl[n_ack]['msg']['src'])
+            n_ack += 1
+    if case.get('quiet') and n_ack != n_acc:
+        return '%d control messages were accepted but only %d acknowledged although the system went quiet' % (n_acc, n_ack)
     if not ctl:
         nb = nr = 0
         for e in ev:
@@ -112,7 +127,7 @@ def monitor(case):
 
 def strip(case):
     """events without observations (replay input)"""
-    return {'cap': case['cap'], 'width': case['width'], 'hostile': case.get('hostile', False), 'quiet': case.get('quiet', False),
+    return {'cap': case['cap'], 'width': case['width'], 'hostile': case.get('hostile', False), 'quiet': case.get('quiet', False), 'sib': case.get('sib', False),
             'events': [{'e': e['e'], **({'msg': e['msg']} if 'msg' in e else {})} for e in case['events']]}
 
 
@@ -201,12 +216,14 @@ def main(argv):
         'evaluations': len(cases),
         'distinct_nontrivial': len({vlib.case_hash(strip(c)) for c in cases if nontrivial(c)}),
         'rule': 'random port-level histories (40-200 events; caps {1,2,3,4,8,128} x widths {1,2,4}); every 5th history hostile '
-                '(duplicate/unknown reply IDs, corrupted payload); non-trivial = at least two responses reached the requester',
+                '(duplicate/unknown reply IDs, corrupted payload); every 3rd history runs a sibling buffer built from the same builder '
+                'value through requests/discard/restart between the events (it must not interfere); non-trivial = at least two responses reached the requester',
         'traces_validated_against_impl': len(cases),
         'event_histogram': dict(hist),
         'responses_observed': sum(1 for c in cases for e in c['events'] if e['e'] == 'rt' and e.get('got')),
         'flush_cases': sum(1 for c in cases if any(e['e'] == 'dc' and e.get('acc') for e in c['events'])),
         'hostile_cases': sum(1 for c in cases if c.get('hostile')),
+        'sibling_cases': sum(1 for c in cases if c.get('sib')),
         'model_mismatches': len(mism), 'monitor_failures': len(bad),
     })
     rep.samples = [{'cap': c['cap'], 'width': c['width'], 'events': [(e['e'], e.get('msg', {}).get('id')) for e in c['events'][:25]]} for c in cases[:2]]
